@@ -104,7 +104,7 @@ func c10scenarioF(c *Ctx, f c10fail) (*chainRun, map[bitcoin.Hash32]bool, *SimDi
 	sc.startFound = true
 	if c.Scen.Bool(1, 3) || forceBoundary {
 		// make file roll-over and reorganisations across the 1000-header boundary likely
-		sc.pre = pickFrom(c.Scen, 990, 995, 997, 998, 999)
+		sc.pre = pickFrom(c.Scen, 990, 995, 997, 998, 999, 1001, 1003) // beyond 1000: the roll-over happens during header-only sync
 		sc.initLen = pickFrom(c.Scen, 2, 4, 8, 12)
 		if c.Scen.Bool(1, 2) && sc.pre < 999 {
 			// cross the boundary while still catching up (blocks are then added without a save per
